@@ -297,6 +297,9 @@ func genArgFault(r *Rng, d *DeclSpec, p *Plan, twinCalls []Call) (f ArgFault, ok
 		}
 		k := r.Pick(kinds)
 		f.Callee = &CalleeFault{Kind: k, Nth: r.Intn(counts[k]), ID: 100 + r.Intn(900)}
+		if k == "execute" || k == "handler" {
+			f.Callee.Form = r.Pick([]string{"", "", "flags:help", "flags:required", "flags:unknown", "wrap:help", "wrap:marshal", "flags:command required"})
+		}
 		switch k {
 		case "callback", "unmarshal":
 			f.Expect = "marshal"
